@@ -8,17 +8,13 @@ package main
 // before 5 s of (virtual) time, and the handler keeps reading until a Read reports the deadline.
 
 import (
-	"bytes"
 	"fmt"
-	"net"
 	"sync"
 	"testing"
 	"time"
 
 	"github.com/refraction-networking/conjure/pkg/core"
 	cj "github.com/refraction-networking/conjure/pkg/station/lib"
-	"github.com/refraction-networking/conjure/pkg/transports/wrapping/obfs4"
-	pb "github.com/refraction-networking/conjure/proto"
 	"pgregory.net/rapid"
 	"verif/harness/vconn"
 	"verif/harness/vh"
@@ -81,7 +77,6 @@ func c03Bytes(rt *rapid.T, n int, label string) []byte {
 	return out[:n]
 }
 
-var c03Lens = []int{0, 1, 5, 31, 32, 33, 63, 64, 65, 69, 70, 71, 78, 79, 80, 81, 84, 85, 86, 100, 1000, 4095, 4096, 4097, 8191, 8192, 8193, 12000, 16384}
 
 func c03Gen(rt *rapid.T, e *aEnv) c03Case {
 	c := c03Case{V6: rapid.IntRange(0, 4).Draw(rt, "v6") == 0}
@@ -95,11 +90,11 @@ func c03Gen(rt *rapid.T, e *aEnv) c03Case {
 	var data []byte
 	switch kind {
 	case "random":
-		n := rapid.SampledFrom(c03Lens).Draw(rt, "len")
+		n := rapid.SampledFrom(aLens).Draw(rt, "len")
 		data = c03Bytes(rt, n, "rnd")
 	case "lookalike":
 		head := rapid.SampledFrom(c03Lookalikes).Draw(rt, "head")
-		n := rapid.SampledFrom(c03Lens).Draw(rt, "len")
+		n := rapid.SampledFrom(aLens).Draw(rt, "len")
 		data = append(append([]byte(nil), head...), c03Bytes(rt, n, "rnd")...)
 	case "static+garbage":
 		head := rapid.SampledFrom(c03Static).Draw(rt, "head")
@@ -351,7 +346,7 @@ func TestVerif_C03_obfs4inner(t *testing.T) {
 			t.Fatalf("harness problem: %v", err)
 		}
 		e.rm.AddRegistration(reg)
-		hs, err := c03Obfs4Handshake(e, aSecret(spec.Secret))
+		hs, err := e.aObfs4Handshake(aSecret(spec.Secret))
 		if err != nil {
 			t.Fatalf("harness problem: obfs4 handshake capture: %v", err)
 		}
@@ -393,41 +388,3 @@ func TestVerif_C03_obfs4inner(t *testing.T) {
 	}
 }
 
-// c03Obfs4Handshake captures the client handshake bytes the real obfs4 client transport sends.
-func c03Obfs4Handshake(e *aEnv, secret []byte) ([]byte, error) {
-	keys, err := core.GenSharedKeys(uint(core.CurrentClientLibraryVersion()), secret, pb.TransportType_Obfs4)
-	if err != nil {
-		return nil, err
-	}
-	ct := &obfs4.ClientTransport{}
-	if err := ct.PrepareKeys(e.pub, secret, keys.TransportReader); err != nil {
-		return nil, err
-	}
-	cli, srv := net.Pipe()
-	var buf bytes.Buffer
-	done := make(chan struct{})
-	go func() {
-		defer close(done)
-		b := make([]byte, 16384)
-		_ = srv.SetReadDeadline(time.Now().Add(2 * time.Second))
-		for {
-			n, err := srv.Read(b)
-			buf.Write(b[:n])
-			if err != nil {
-				return
-			}
-			// the client sends its whole handshake, then waits for the server: a short quiet period ends it
-			_ = srv.SetReadDeadline(time.Now().Add(150 * time.Millisecond))
-		}
-	}()
-	go func() {
-		_, _ = ct.WrapConn(cli) // blocks until the server side goes away
-	}()
-	<-done
-	srv.Close()
-	cli.Close()
-	if buf.Len() < 64 {
-		return nil, fmt.Errorf("captured only %d handshake bytes", buf.Len())
-	}
-	return buf.Bytes(), nil
-}
